@@ -7,6 +7,10 @@ ROOT = "/verif"
 
 # id -> (technique, level text, level note, design ref)
 CHECKS = {
+ "C07": ("generated programs: proptest-generated trees of #[metrics] type definitions written as Rust source, compiled and run; reference interpreter of the naming rules as oracle; tree-level shrinking by recompilation",
+         "Program generation: type-definition trees (depth <= 3) covering every attribute combination the property lists are emitted as source into scratch crates with path dependencies on /repo, compiled, executed, and the recorded (name, kind, value, unit) list and sample-group pairs compared with a reference interpreter evaluated on the same tree; failures are shrunk by deleting fields/variants/attributes with one rustc run per step.",
+         "Case conversion itself is delegated to the Inflector crate (the documented engine); what is tested is the composition. Programs are sampled; compile errors are inconclusive, never violations. One known finding (flatten prefix missing from sample-group names) is listed in known_findings.json because the macro's own snapshot tests pin the defective output.",
+         "DESIGN.md §2 C07"),
  "C10": ("stateful proptest (input/flush/guard sequences) against a reference map per flush epoch; real producer threads for the worker sink; termination by counting flush() calls on a probe",
          "Generated sequences of keyed inputs, flushes and merge-on-drop guards through KeyedAggregator, TeeSink (incl. a hand-written colliding-hash Cow key and a non-aggregating branch), WorkerSink with 1-4 producers, embedded Aggregate and MutexSink: one aggregate per key per flush with exact sums / distributions / keep-last, conservation over all epochs, flush barrier, worker termination after the last handle is dropped.",
          "Reference accumulator is a BTreeMap written from the docs; worker/producer interleavings sampled natively.",
